@@ -22,7 +22,7 @@ LEVEL_NOTE = "Sampled. Trusts IntervalSet and the NAK size arithmetic in lib/mod
 RULE = (
     "case = (size, segment length, NAK mode, requests-per-NAK-PDU class, id/seq widths, CRC flag) + arrival script: permutation of "
     "[Metadata, segments..., EOF] with per-item keep/drop/dup, then a tail of {tick, idle, retransmit(request k, chunk mask), late segment, "
-    "Metadata, EOF}. Non-trivial: a deferred NAK sequence with >= 2 gaps or >= 2 PDUs, or an immediate NAK after a reordering. "
+    "Metadata, EOF, empty File Data PDU, grid-unaligned File Data PDU}; one script in six also has an empty File Data PDU in its initial part. Non-trivial: a deferred NAK sequence with >= 2 gaps or >= 2 PDUs, or an immediate NAK after a reordering. "
     "Distinct = distinct case."
 )
 ASSUMPTIONS = [
